@@ -157,4 +157,4 @@ class HTMLEntity(Node):
             return chr(htmlentities.name2codepoint[self.value])
         if self.hexadecimal:
             return chr(int(self.value, 16))
-        return chr(int(self.value))
+        return chr(int(self.value.lstrip("0") or "0"))
